@@ -144,9 +144,13 @@ func TwofishNettle(key, in []byte, decrypt bool) ([]byte, bool) {
 	return out, true
 }
 
-// RC2Nettle: key 1..128 bytes, ekb effective key bits 1..1024.
+// RC2Nettle: key 1..128 bytes, ekb effective key bits 1..1016 or 1024.
+// nettle 3.8 substitutes S[0] before the effective-key reduction, which only
+// matters when the reduction starts at S[0] itself (ekb 1017..1023): there it
+// applies PITABLE twice where RFC 2268 applies it once.  Those values are not
+// answered by this oracle.
 func RC2Nettle(key []byte, ekb int, in []byte, decrypt bool) ([]byte, bool) {
-	if !Available() || len(key) < 1 || len(key) > 128 || ekb < 1 || ekb > 1024 || len(in) != 8 {
+	if !Available() || len(key) < 1 || len(key) > 128 || ekb < 1 || ekb > 1024 || (ekb > 1016 && ekb < 1024) || len(in) != 8 {
 		return nil, false
 	}
 	out := make([]byte, 8)
